@@ -681,6 +681,10 @@ func ParseSInterP(buf string) frt.Tuple2[string, []string] {
 				panic("escape just before end, wrong")
 			}
 			c2 := buf[i]
+			if c2 == '{' || c2 == '}' {
+				// \{ and \} stand for literal braces: Go has no such escape, drop the backslash
+				res.Truncate(res.Len() - 1)
+			}
 			res.WriteByte(c2)
 		} else if c == '{' {
 			i++
